@@ -32,6 +32,7 @@
 #include <list>
 #include <vector>
 #include <set>
+#include <map>
 
 #include "libavoid/dllexport.h"
 
@@ -45,6 +46,11 @@ class VertInf;
 
 //! @brief   A list of ConnEnd objects.
 typedef std::list<ConnEnd> ConnEndList;
+
+// Maps the visibility graph vertex of a hyperedge terminal to the ConnEnd 
+// it was registered with.
+typedef std::map<VertInf *, const ConnEnd *> VertexConnEndMap;
+typedef std::vector<VertexConnEndMap> VertexConnEndMapVector;
 
 //! @brief   A list of ConnRef objects.
 typedef std::list<ConnRef *> ConnRefList;
@@ -214,6 +220,7 @@ class AVOID_EXPORT HyperedgeRerouter
         ConnRefListVector m_new_connectors_vector;
         ConnRefListVector m_deleted_connectors_vector;
         VertexSetVector m_terminal_vertices_vector;
+        VertexConnEndMapVector m_terminal_connends_vector;
         VertexList m_added_vertices;
 };
 
